@@ -1692,6 +1692,54 @@ impl TransactionalMemory {
     }
 }
 
+#[cfg(redb_verif)]
+impl TransactionalMemory {
+    pub(crate) fn verif_fill_accounting(&self, acc: &mut crate::verif::Accounting) {
+        fn p(page: &PageNumber) -> crate::verif::Page {
+            (page.region, page.page_index, page.page_order)
+        }
+        {
+            let state = self.state.lock().unwrap();
+            if let Some(allocators) = state.allocators.as_ref() {
+                let mut allocated = vec![];
+                for (r, allocator) in allocators.region_allocators.iter().enumerate() {
+                    acc.region_lens.push(allocator.len());
+                    for i in 0..allocator.len() {
+                        if !allocator.verif_is_free(i) {
+                            allocated.push((u32::try_from(r).unwrap(), i));
+                        }
+                    }
+                }
+                acc.allocated = Some(allocated);
+            }
+        }
+        let unpersisted = self.unpersisted.lock().unwrap();
+        acc.unpersisted_pages = unpersisted.pages.iter().map(p).collect();
+        acc.unpersisted_allocations = unpersisted
+            .allocations
+            .iter()
+            .map(|(id, pages)| (id.raw_id(), pages.iter().map(p).collect()))
+            .collect();
+        acc.unpersisted_data_freed = unpersisted
+            .data_freed
+            .iter()
+            .map(|(id, pages)| (id.raw_id(), pages.iter().map(p).collect()))
+            .collect();
+        acc.post_commit_allocations = unpersisted.post_commit_allocations.iter().map(p).collect();
+        acc.needs_repair = self.needs_repair();
+    }
+
+    pub(crate) fn verif_header(&self) -> crate::verif::HeaderSnapshot {
+        let mut snapshot = crate::verif::HeaderSnapshot::default();
+        let state = self.state.lock().unwrap();
+        state.header.verif_snapshot(&mut snapshot);
+        snapshot.read_from_secondary = state.read_from_secondary;
+        snapshot.allocators_loaded = state.allocators.is_some();
+        snapshot.needs_repair = self.needs_repair();
+        snapshot
+    }
+}
+
 #[cfg(test)]
 mod test {
     use crate::tree_store::page_store::page_manager::INITIAL_REGIONS;
